@@ -42,33 +42,33 @@ Qed.
    read FALSE - and end either with a request that finds no answer while the flag still reads
    false (stopped = false: the list is complete) or with a flag that reads true (stopped =
    true: whatever that last request returned is dropped). *)
-Inductive Run (kb : kbase) (q : term) : nat -> node -> world -> list str -> node -> world -> bool -> Prop :=
-| Run_complete fuel nd w nd' c w1 :
+Inductive Run (kb : kbase) (q : term) (fuel : nat) : node -> world -> list str -> node -> world -> bool -> Prop :=
+| Run_complete nd w nd' c w1 :
     next kb fuel fuel nd w = Ok (nd', None, c, w1) -> fst (query_stopped w1) = false ->
     Run kb q fuel nd w [] nd' (snd (query_stopped w1)) false
-| Run_stopped fuel nd w nd' sol c w1 :
+| Run_stopped nd w nd' sol c w1 :
     next kb fuel fuel nd w = Ok (nd', sol, c, w1) -> fst (query_stopped w1) = true ->
     Run kb q fuel nd w [] nd' (snd (query_stopped w1)) true
-| Run_answer f nd w nd1 s c w1 txt l nd' w' b :
-    next kb (S f) (S f) nd w = Ok (nd1, Some s, c, w1) -> fst (query_stopped w1) = false ->
-    answer_text (S f) q s = Ok txt ->
-    Run kb q f nd1 (snd (query_stopped w1)) l nd' w' b ->
-    Run kb q (S f) nd w (txt :: l) nd' w' b.
+| Run_answer nd w nd1 s c w1 txt l nd' w' b :
+    next kb fuel fuel nd w = Ok (nd1, Some s, c, w1) -> fst (query_stopped w1) = false ->
+    answer_text fuel q s = Ok txt ->
+    Run kb q fuel nd1 (snd (query_stopped w1)) l nd' w' b ->
+    Run kb q fuel nd w (txt :: l) nd' w' b.
 
-Lemma solve_all_loop_runs kb q : forall fuel nd acc w nd' l w',
-  solve_all_loop fuel kb nd q acc w = Ok (nd', l, w') ->
+Lemma solve_all_loop_runs kb q fuel : forall n nd acc w nd' l w',
+  solve_all_loop n fuel kb nd q acc w = Ok (nd', l, w') ->
   exists l0 b, Run kb q fuel nd w l0 nd' w' b /\ l = acc ++ l0.
 Proof.
-  induction fuel as [|f IH]; intros nd acc w nd' l w' H; [discriminate|].
+  induction n as [|f IH]; intros nd acc w nd' l w' H; [discriminate|].
   cbn [solve_all_loop] in H.
-  destruct (next kb (S f) (S f) nd w) as [[[[n1 o1] b1] w1]| |] eqn:E; cbn [bind] in H; try discriminate.
+  destruct (next kb fuel fuel nd w) as [[[[n1 o1] b1] w1]| |] eqn:E; cbn [bind] in H; try discriminate.
   destruct (query_stopped w1) as [st w2] eqn:Eq.
   destruct st.
   - inversion H; subst. exists [], true. split; [|now rewrite app_nil_r].
     replace w' with (snd (query_stopped w1)) by now rewrite Eq.
     eapply Run_stopped; eauto. now rewrite Eq.
   - destruct o1 as [s|].
-    + destruct (replace_variables (S f) q s) as [r| |] eqn:Er; cbn [bind] in H; try discriminate.
+    + destruct (replace_variables fuel q s) as [r| |] eqn:Er; cbn [bind] in H; try discriminate.
       destruct (format_solution (GCall q) r) as [t| |] eqn:Ef; cbn [bind] in H; try discriminate.
       destruct (IH _ _ _ _ _ _ H) as (l0 & b & Hr & ->).
       exists (t :: l0), b. split; [|now rewrite <- app_assoc].
@@ -107,9 +107,9 @@ Theorem solve_all_reports kb fuel nd w nd' l w' :
     (b = true -> fst (query_stopped w1) = true).
 Proof.
   unfold solve_all. intro H. destruct (node_goal_term nd) as [q|]; [|discriminate].
-  destruct (solve_all_loop fuel kb nd q [] (w_set_flag w false)) as [[[n1 acc] w1]| |] eqn:E;
+  destruct (solve_all_loop fuel fuel kb nd q [] (w_set_flag w false)) as [[[n1 acc] w1]| |] eqn:E;
     cbn [bind] in H; try discriminate.
-  destruct (solve_all_loop_runs _ _ _ _ _ _ _ _ _ E) as (l0 & b & Hr & Hl). simpl in Hl. subst acc.
+  destruct (solve_all_loop_runs _ _ _ _ _ _ _ _ _ _ E) as (l0 & b & Hr & Hl). simpl in Hl. subst acc.
   destruct (query_stopped w1) as [st w2] eqn:Eq. inversion H; subst.
   exists q, l0, b, w1. rewrite Eq. simpl. split; [reflexivity|]. split; [exact Hr|]. split.
   - destruct st; [reflexivity|now rewrite app_nil_r].
